@@ -10,7 +10,6 @@ use crate::sut;
 use serde::{Deserialize, Serialize};
 use std::collections::{BTreeMap, BTreeSet};
 use std::hash::{Hash, Hasher};
-use std::sync::atomic::{AtomicU64, Ordering};
 use std::sync::{Arc, Mutex};
 
 pub struct Fnv(pub u64);
@@ -51,6 +50,8 @@ pub struct RunResult {
 /// Shared with the watchdog thread: what is being executed right now.
 #[derive(Default)]
 pub struct Current {
+    /// progress counter: bumped at every run start and before every operation
+    pub beat: u64,
     pub run: u64,
     pub world: Option<World>,
     pub ops: Vec<Op>,
@@ -82,6 +83,7 @@ pub fn run_one_traced(prop: &dyn Prop, corpus: &Corpus, seed: u64, idx: u64, cur
     }
     if let Some(c) = current {
         let mut c = c.lock().unwrap();
+        c.beat += 1;
         c.run = idx;
         c.world = Some(world.clone());
         c.ops.clear();
@@ -95,7 +97,9 @@ pub fn run_one_traced(prop: &dyn Prop, corpus: &Corpus, seed: u64, idx: u64, cur
         let mut exec = prop.new_exec(&world);
         while let Some(op) = gen.next_op(&mut rng) {
             if let Some(c) = current {
-                c.lock().unwrap().ops.push(op.clone());
+                let mut c = c.lock().unwrap();
+                c.beat += 1;
+                c.ops.push(op.clone());
             }
             if let Some(t) = trace {
                 trace_line(t, false, &format!("OP {}", serde_json::to_string(&op).unwrap()));
@@ -212,19 +216,17 @@ pub fn worker(prop: &dyn Prop, a: &WorkerArgs) -> i32 {
     sut::install_panic_hook();
     let corpus = gen::load_corpus();
     let current = Arc::new(Mutex::new(Current::default()));
-    let beat = Arc::new(AtomicU64::new(0));
     // watchdog: a run that does not finish within hang_secs is a hang (bounded liveness)
     {
         let current = current.clone();
-        let beat = beat.clone();
         let out = a.out.clone();
         let hang_secs = a.hang_secs;
         std::thread::spawn(move || {
-            let mut last = beat.load(Ordering::SeqCst);
+            let mut last = current.lock().unwrap().beat;
             let mut since = std::time::Instant::now();
             loop {
                 std::thread::sleep(std::time::Duration::from_millis(500));
-                let b = beat.load(Ordering::SeqCst);
+                let b = current.lock().unwrap().beat;
                 if b != last {
                     last = b;
                     since = std::time::Instant::now();
@@ -258,7 +260,6 @@ pub fn worker(prop: &dyn Prop, a: &WorkerArgs) -> i32 {
             rep.truncated = true;
             break;
         }
-        beat.fetch_add(1, Ordering::SeqCst);
         // every run gets a fresh thread, i.e. fresh thread-local state of the system under test: a
         // run must not depend on what earlier runs of this worker left behind, otherwise its replay
         // file (which holds this run only) would not reproduce it
